@@ -95,6 +95,18 @@ func Protos(version string, full bool) []Proto {
 							sender := "@u:" + Keys[s].Server
 							p := Proto{Type: t.Type, StateKey: t.StateKey, Sender: sender, Content: c, Prev: ids(version, l[0]), Auth: ids(version, l[1]), Depth: d, Unsigned: u, Redacts: t.Redacts, TS: 1_700_000_000_000, Signer: s}
 							out = append(out, p)
+							// room version 12: auth lists that name the create event themselves, not in first place
+							if full && refversions.Get(version).DomainlessRoomIDs && d == 1 && u == "" && s == 0 && l[1] >= 1 && l[1] <= 2 && t.Type != "m.room.create" {
+								create := "$" + RoomID(version)[1:]
+								q := p
+								q.Auth = append(append([]string{}, p.Auth...), create)
+								out = append(out, q)
+								if l[1] == 2 {
+									q2 := p
+									q2.Auth = []string{p.Auth[0], create, p.Auth[1], create}
+									out = append(out, q2)
+								}
+							}
 						}
 					}
 				}
